@@ -1,6 +1,7 @@
 """registry.py — what each property's check consists of: binaries (harness sources
 + libeav variants), stages with case budgets per tier, evidence texts."""
 
+import runners
 RC = "-lrapidcheck"
 IDN = "-lidn2"
 
@@ -423,6 +424,41 @@ PROPS["C14"] = dict(
     level_text="Exploration: ThreadSanitizer is the race oracle (independent of the schedule actually taken for executed access pairs), the "
                "sequential execution of the same call lists is the result oracle. No interleaving coverage is claimed.",
     level_note="Trusted: ThreadSanitizer (clang 14), pthreads; libidn2 is not instrumented.",
+)
+
+PROPS["C06"] = dict(
+    level="exploration",
+    default_binary="c06",
+    binaries={"c06": dict(src=["props/c06.cpp"], variants=["dflt", "extra"]),
+              "fuzzapi": dict(src=["fuzz/fuzz_api.cpp"], variants=["dfuzz"], san="fuzz", libs=["-lidn2"]),
+              "vgreplay": dict(src=["drivers/vg_replay.c"], variants=["plain", "pextra"], san="plain", libs=["-lidn2"]),
+              "work": dict(src=["drivers/work.c"], variants=["pfault"], san="plain", libs=["-lidn2"])},
+    stages=[
+        stage("shapes"),
+        stage("guard"),
+        stage("sweep"),
+        stage("random", kind="rc", quick=3000, thorough=60000, max_size=100),
+        stage("callgrind", binary="work", runner=runners.run_callgrind),
+        stage("valgrind", binary="vgreplay", runner=runners.run_valgrind, quick=1200, thorough=6000),
+        stage("fuzz", binary="fuzzapi", kind="fuzz", runner=runners.run_fuzz, quick=40000, thorough=2000000, max_len=300),
+    ],
+    rule="Inputs (NUL-terminated, length == strlen): 55 template addresses x every structural position (first, last, each side of @ [ ] . \" \\ :) x "
+         "every byte 0x01-0xFF x {insert, replace}; 14 adversarial shapes x 18 lengths from 0 to 64 KiB and all 1-byte inputs; the repository corpus "
+         "and all prefixes of the templates in a read-only page against a PROT_NONE page; grammar-based random addresses (some padded to "
+         "0.2-3 KiB); libFuzzer campaigns (16 workers, half seeded from data/*.txt, half from an empty corpus). Every input goes through every public "
+         "entry point (eav_is_email in 4 modes x tld_check {0,1}, is_<mode>_email, all per-part validators on the whole string and on both "
+         "halves) in the default and EAV_EXTRA builds under ASan+UBSan+LSan, with the raw eav_t block pre-filled with three patterns before eav_init. "
+         "valgrind memcheck replays generated inputs in an uninstrumented build with eav_t from malloc; callgrind measures instruction counts of "
+         "19 entry points x 16 shapes x sizes up to 64 KiB. Non-trivial = the input reaches the domain stage (non-empty text on both sides of "
+         "'@') or is >= 1 KiB, or is a work measurement with n >= 4096; distinct by input hash.",
+    assumptions=["allocation failure inside libeav is excluded by the statement", "reads inside the caller's string but outside [start,end) are allowed by the statement",
+                 "linear time: I(2n)-I(0) <= 2.5 (I(n)-I(0)) + 40 n + 1e4 and I(n)-I(0) <= 1000 n + 1e5 instructions, with the IDN converter replaced by a pass-through so that libidn2's own cost is not attributed to libeav",
+                 "libFuzzer slow-unit/timeout/oom artifacts are load noise and ignored; only crash-/leak- artifacts and oracle traps count"],
+    min_evaluations=dict(quick=10_000_000, thorough=100_000_000),
+    technique="sanitizer-instrumented generated inputs (positional byte sweep, adversarial shapes, guard pages, rapidcheck, libFuzzer), poison differential on the eav_t block, valgrind memcheck replay, callgrind instruction-count doubling relation",
+    level_text="Exploration with instrumentation as oracle: ASan/UBSan/LSan on every generated case, valgrind memcheck for uninitialised reads "
+               "with the real IDN library in the loop, deterministic instruction counts for the linear-time clause.",
+    level_note="Trusted: clang sanitizers, valgrind 3.19 (memcheck, callgrind), libFuzzer.",
 )
 
 
